@@ -8,6 +8,7 @@ import itertools
 from mc.core import Res
 from mc import keys as K
 from mc import recips as R
+from mc import adapt as A
 from refpgp import wire, keys as rkeys
 
 BODIES = {'b1': b'\x42', 'b17': bytes(range(17)), 'b40': b'forty octets of plaintext for the test!!'[:40]}
@@ -114,21 +115,29 @@ class Prop(object):
             return 'no-plaintext', 'object without content'
         if kind != 'literal':
             return 'no-plaintext', 'result is %s' % kind
+        # what came back is compared through its export (content, name, format, time, compression as the reference parser reads them) and its signatures
+        try:
+            dv = A.msg_view(d)
+            dsigs = sorted(bytes(s) for s in d.signatures)
+        except A.HarnessBinding:
+            raise
+        except Exception as e:
+            return 'different', 'decrypted object does not export as a literal message: %r' % (e,)
         for cand in (m,) + tuple(alts):
             if isinstance(cand, (bytes, bytearray)):
-                if bytes(d._message._contents) == bytes(cand) and d.filename == '' and d._message.format == 'b' and not d.signatures:
+                if dv['data'] == bytes(cand) and dv['name'] == b'' and dv['format'] == 'b' and not dsigs:
                     return 'same', None
                 continue
-            try:
-                same = (bytes(d.message if isinstance(d.message, (bytes, bytearray)) else d.message.encode('utf-8')) == bytes(cand.message) and
-                        d.filename == cand.filename and d._compression == cand._compression and d._message.format == cand._message.format and
-                        int(d._message.mtime.timestamp()) == int(cand._message.mtime.timestamp()) and
-                        sorted(bytes(s) for s in d.signatures) == sorted(bytes(s) for s in cand.signatures))
-            except Exception as e:
-                return 'different', 'decrypted object cannot be compared: %r' % (e,)
-            if same:
+            if dv == self._view(cand) and dsigs == sorted(bytes(s) for s in cand.signatures):
                 return 'same', None
-        return 'different', 'content %r' % (bytes(d._message._contents)[:24],)
+        return 'different', 'content %r' % (dv['data'][:24],)
+
+    def _view(self, m):
+        k = id(m)
+        cache = self.__dict__.setdefault('_views', {})
+        if k not in cache or cache[k][0] is not m:
+            cache[k] = (m, A.msg_view(m))
+        return cache[k][1]
 
     def _judge(self, r, blob, rc, m, tags, case, label, must_raise=False, alts=()):
         r.states += 1
@@ -137,7 +146,7 @@ class Prop(object):
         r.outcomes[oc] += 1
         # the ciphertext of a base is not reproducible (fresh session keys, ephemeral keys): a violation carries the exact octets
         rep = {'blob': bytes(blob).hex(), 'recip': rc, 'cipher': case.get('cipher'), 'tags': tags, 'must_raise': must_raise,
-               'want': [bytes(x if isinstance(x, (bytes, bytearray)) else x._message._contents).hex() for x in (m,) + tuple(alts)]}
+               'want': [bytes(x if isinstance(x, (bytes, bytearray)) else self._view(x)['data']).hex() for x in (m,) + tuple(alts)]}
         if oc == 'different':
             r.viol('different-plaintext', tags, rep, '%s: decryption returned something other than the original plaintext (%s)' % (label, info))
         elif must_raise and oc == 'same':
